@@ -93,6 +93,11 @@ pub fn replay(input: &str, fixfile: Option<&str>, outdir: &str, nm: usize, seed:
                     if gi >= glist.len() {
                         break;
                     }
+                    // tens of thousands of mismatching transitions: the tree is broken beyond the need for more witnesses
+                    if counts.lock().unwrap().1 > 20_000 {
+                        counts.lock().unwrap().2 += glist[gi].len();
+                        continue;
+                    }
                     let group = &glist[gi];
                     let empty = vec![];
                     let first = &lines[group[0]];
